@@ -57,19 +57,19 @@ VOCAB = [
     "Sequence()", "Split([])",
 ]
 
-MAX_M = 4
-
 
 def _maxlen(tier):
     return 4 if tier == "thorough" else 3
 
 
 def describe(tier):
-    return ("element lists of length 0..%d over %d factories %s; flows range(m), m = 0..%d, bare and as "
-            "(i, {'i': i}) pairs; per list of length n all %s pipeline forms (n = 0..4); ill-typed "
-            "arguments %s at every position of good lists of length 0..2"
-            % (_maxlen(tier), len(VOCAB), VOCAB, MAX_M,
-               [len(forms(n)) for n in range(5)], [b for b in BAD]))
+    N = _maxlen(tier)
+    return ("element lists of length 0..%d over %d factories %s; flows of m values -1, 0, 1, ... bare and as "
+            "(i, {'i': i}) pairs, m in %s; per list of length n = 0..%d all %s pipeline forms; ill-typed "
+            "arguments %s at every position of good lists of length 0..2 over %s"
+            % (N, len(VOCAB), VOCAB,
+               {"n=%d" % n: list(_flow_lengths(tier, n)) for n in sorted(set((min(N, 3), N)))},
+               N, [len(forms(n)) for n in range(N + 1)], [b for b in BAD], GOOD_FOR_BAD))
 
 
 # ---------------------------------------------------------------------------------------------------
@@ -129,9 +129,10 @@ def forms(n):
             add("wrap-empty" if i == j else "wrap", flat[:i] + [flat[i:j]] + flat[j:])
     for t in _groupings(flat):
         add("grouped", t)
-    for i in range(n + 1):
-        for j in range(i, n + 1):
-            add("deep", flat[:i] + [[flat[i:j]]] + flat[j:])
+    if n <= 3:      # double wrapping of every contiguous sub-list (for n = 4 only of the whole list)
+        for i in range(n + 1):
+            for j in range(i, n + 1):
+                add("deep", flat[:i] + [[flat[i:j]]] + flat[j:])
     add("deep", [[[flat]]])
     if n >= 2:
         for t in _groupings(flat):
@@ -147,6 +148,8 @@ def forms(n):
     # Source forms: the flow is the first element
     for k, t in trees:
         if k in ("flat", "wrap", "wrap-empty", "grouped"):
+            if n >= 4 and k == "wrap-empty" and t != every:
+                continue
             out.append({"kind": "source-list/" + k, "top": "source-list", "tree": t})
     out.append({"kind": "source-callable/flat", "top": "source-callable", "tree": flat})
     out.append({"kind": "source-callable/deep", "top": "source-callable", "tree": [[[flat]]]})
@@ -394,8 +397,14 @@ def shards(tier):
     return out
 
 
-def _flows():
-    for m in range(MAX_M + 1):
+def _flow_lengths(tier, n):
+    if tier == "thorough":
+        return (0, 1, 4) if n >= 4 else (0, 1, 2, 3, 4, 5)
+    return (0, 1, 2, 3, 4)
+
+
+def _flows(tier, n):
+    for m in _flow_lengths(tier, n):
         for kind in cm.FLOW_KINDS:
             yield (kind, m)
 
@@ -406,12 +415,12 @@ def run_shard(p, tier):
     if p["kind"] == "short":
         for n in (0, 1):
             for specs in itertools.product(VOCAB, repeat=n):
-                for fs in _flows():
+                for fs in _flows(tier, n):
                     case = check_compose(res, specs, fs)
                 res.sample(case, 3)
         # pipelines made of empty Sequences only (identity law), a few more shapes
         for n in (2, 3, 4):
-            for fs in _flows():
+            for fs in _flows(tier, 1):
                 case = check_compose(res, ("Sequence()",) * n, fs)
     elif p["kind"] == "illtyped":
         for bad, good, pos, place in _illtyped_cases():
@@ -423,7 +432,7 @@ def run_shard(p, tier):
             specs = tuple(p["prefix"]) + tail
             if all(s == "Sequence()" for s in specs):
                 continue        # done in the short shard (keeps cases distinct)
-            for fs in _flows():
+            for fs in _flows(tier, p["n"]):
                 case = check_compose(res, specs, fs)
             res.sample(case, 3)
     return res
